@@ -26,6 +26,14 @@ CHECKS = {
                 technique='bounded-exhaustive enumeration of field values and of repeated-send operation sequences on the real Association.send, command sets parsed by an independent implicit-VR-LE reader',
                 text='23 classes x UID lengths 1..64 x numeric boundary grid x every subset of unset fields x every sequence of <=2/3 changes between sends; complete within the grids',
                 note='trusts vp/ref_cmd.py (PS3.7 E.1 dictionary); stub provider records the generator handed to dul.send'),
+    'C09': dict(engine='E1', level='exploration', design_ref='DESIGN.md 3/C09',
+                technique='exhaustive enumeration of (AE configuration, association request) pairs over a small universe on the real AssociationAcceptor.accept and _loop, oracle = reference negotiator',
+                text='64 configurations x every request of <=2 contexts (3 abstract syntaxes x ordered TS lists) + reduced 3-4 context requests; reply, internal tables and later dispatch all compared with the reference',
+                note='stub provider; request items in canonical order; reject reason codes unconstrained'),
+    'C10': dict(engine='E1', level='exploration', design_ref='DESIGN.md 3/C10',
+                technique='exhaustive enumeration of (local maximum, peer maximum) pairs over a 22-value boundary grid x both roles x message sizes around the fragment size, on the real accept/_request/send',
+                text='all 484 pairs x 2 roles, each followed by real sends of F-1, F, F+1, 3F+2 byte messages checked for the peer limit and for complete transmission',
+                note='stub provider; sizes capped at 200 kB'),
     'C18': dict(engine='E1', level='exploration', design_ref='DESIGN.md 3/C18',
                 technique='exhaustive enumeration of all 65536 codes x 24 command classes + all add_status operation sequences to depth 2/3 against a reference dict model',
                 text='complete enumeration of the finite input space (1.57 M Status constructions) and of every add_status history up to the depth bound; nothing is sampled',
